@@ -59,8 +59,34 @@ impl Family for Fam {
         Fam { slots: (0..8).map(|_| None).collect() }
     }
 
+    /// deserialize ops parse untrusted bytes.  make() reserves 48 * (2k + fudge) bytes for the
+    /// configuration k announced by the image (bytes 3-4 of the DataSketches format; a reference
+    /// image announces it as a float): that configuration-sized reservation is granted on top of
+    /// the input length (DESIGN.md C14: c1 * |b| + c0(cfg)).
+    fn parse_len(&self, code: i64, a: &[i128]) -> Option<usize> {
+        if code == 15 || code == 21 {
+            let n = a.len() - 1;
+            let k = if n >= 5 && a[3] == 20 {
+                (a[4] as usize) | ((a[5] as usize) << 8)
+            } else {
+                65535
+            };
+            Some(n + 48 * (2 * k + 30) / 64)
+        } else {
+            None
+        }
+    }
+
     fn step(&mut self, code: i64, a: &[i128]) -> Ob {
         let slot = a[0] as usize;
+        // an operation addressed to a slot that holds no digest (e.g. after a rejected image) is a
+        // harness-level no-op, observed as EMPTY (-996) on both sides
+        if !matches!(code, 0 | 15 | 21) && self.slots[slot].is_none() {
+            return vec![-996];
+        }
+        if code == 2 && self.slots[a[1] as usize].is_none() {
+            return vec![-996];
+        }
         match code {
             0 => {
                 self.slots[slot] = Some(TDigestMut::new(a[1] as u16));
@@ -116,9 +142,9 @@ impl Family for Fam {
                     Err(_) => vec![ERR],
                 }
             }
-            15 => {
+            15 | 21 => {
                 let bytes: Vec<u8> = a[1..].iter().map(|b| *b as u8).collect();
-                match TDigestMut::deserialize(&bytes, false) {
+                match TDigestMut::deserialize(&bytes, code == 21) {
                     Ok(s) => {
                         self.slots[slot] = Some(s);
                         vec![1]
@@ -133,6 +159,17 @@ impl Family for Fam {
                 self.slots[slot] = Some(s);
                 ob
             }
+            19 => {
+                let bytes = self.slots[slot].as_mut().unwrap().serialize();
+                match TDigestMut::deserialize(&bytes, false) {
+                    Ok(s) => {
+                        self.slots[a[1] as usize] = Some(s);
+                        vec![1]
+                    }
+                    Err(_) => vec![ERR],
+                }
+            }
+            20 => self.slots[slot].as_mut().unwrap().serialize().into_iter().map(|b| b as i128).collect(),
             18 => {
                 let s = self.slots[slot].as_mut().unwrap();
                 let mut out = vec![];
